@@ -434,6 +434,29 @@ class AioEndpoint(EndpointBase):
             self._lose_with(e)
         self.world.settle()
 
+    def feed_burst(self, chunks):
+        """Several ``data_received()`` calls back to back inside ONE read event - what a transport does that
+        hands over one chunk per decrypted record / internal buffer - and only THEN the loop runs until idle
+        (so the protocol's consumer callback finds more than one chunk queued).  The asyncio.Protocol contract
+        allows it; ``feed`` (one call per read event, as the plain selector TCP transport does) is untouched.
+        Returns the number of chunks handed over."""
+        n = 0
+        for data in chunks:
+            if self.lost or self.close_requested is not None:
+                break
+            if not data:
+                continue
+            self.log("feed", len(data))
+            try:
+                self.proto.data_received(bytes(data))
+                n += 1
+            except Exception as e:
+                self._escaped("data_received", e)
+                self._lose_with(e)
+                break
+        self.world.settle()
+        return n
+
     def _lose_with(self, exc):
         if self.lost:
             return
